@@ -71,8 +71,30 @@ def lib_check(cache):
             if not issubclass(w.category, diskcache.EmptyDirWarning)]
 
 
+def timed_out_write(w):
+    """Make one write of this client give up with Timeout (another
+    connection holds the write lock), as history before the block."""
+    import os
+    from ..env import real_connect
+    import diskcache
+    other = real_connect(os.path.join(w.dir, 'cache.db'), timeout=0,
+                         isolation_level=None)
+    try:
+        other.execute('BEGIN IMMEDIATE')
+        try:
+            w.cache.set('zz-blocked', 1)
+        except diskcache.Timeout:
+            pass
+        else:
+            raise RuntimeError('write did not time out under a held lock')
+        other.execute('ROLLBACK')
+    finally:
+        other.close()
+
+
 def body_unit(unit):
-    _, init, bodies, inject = unit
+    _, init, bodies, inject = unit[:4]
+    pre_step = unit[4] if len(unit) > 4 else None
     part = {'states': 0, 'transitions': 0, 'executions': 0, 'violations': [],
             'outcomes': {}, 'samples': [], 'caps': [], 'label': 'grid/cache'}
 
@@ -80,11 +102,13 @@ def body_unit(unit):
         part['violations'].append({
             'signature': {'clause': clause, 'target': 'cache',
                           'ops': '+'.join(sorted({b[0] for b in body}))},
-            'message': '%s: block %r from state %s, %s: %s'
-                       % (clause, body, init, where, msg),
+            'message': '%s: block %r from state %s%s, %s: %s'
+                       % (clause, body, init,
+                          ' after a write of this client timed out'
+                          if pre_step else '', where, msg),
             'replay': {'engine': 'GRID', 'module': 'props.c06',
                        'init': init, 'body': [list(b) for b in body],
-                       'where': where}})
+                       'where': where, 'pre_step': pre_step}})
 
     for body in bodies:
         part['states'] += 1
@@ -98,6 +122,8 @@ def body_unit(unit):
             try:
                 for o in INITS[init]:
                     w.apply_fast(o)
+                if pre_step == 'timeout':
+                    timed_out_write(w)
                 pre = full_state(w.dir)
                 pre_rows = Snapshot(w.dir).contents()
                 op = ('block', tuple(body), k) + (('hard',) if hard else ())
@@ -405,6 +431,13 @@ def work(unit):
         return body_unit(unit)
     if kind == 'containers':
         return container_unit(unit)
+    if kind == 'index-sched':
+        from .c12 import IndexScenario
+        _, programs, init, bound, cap = unit
+        part = sched.explore(lambda: IndexScenario(programs, init, 'own'),
+                             bound=bound, por=True, time_cap=cap)
+        part['label'] = 'sched/index'
+        return part
     if kind == 'fanout-sched':
         _, programs, bound, cap = unit[:4]
         mode = unit[4] if len(unit) > 4 else 'own'
@@ -446,6 +479,12 @@ def main(tier, seed):
             part = allb[i:i + chunk]
             inject = tier == 'thorough' or all(len(b) <= 2 for b in part)
             units.append(('bodies', init, part, inject))
+        # the same blocks when an earlier write of this client timed out
+        short = [b for b in allb if len(b) == 1] if tier == 'quick' else \
+            [b for b in allb if len(b) <= 2]
+        for i in range(0, len(short), chunk):
+            units.append(('bodies', init, short[i:i + chunk], False,
+                          'timeout'))
     units.append(('containers',))
     for programs, init, mode, bound in sched_plan(tier):
         units.append(('sched', programs, init, mode, bound, cap))
@@ -462,6 +501,14 @@ def main(tier, seed):
                                      None)],
                                    [('block', (('incr', 'm'), ('incr', 'n')),
                                      None)]], None, cap))
+    # Index.transact: the block's writes appear together and a key that the
+    # block replaces (file-backed -> file-backed) is never seen missing
+    from .c12 import BIG as IBIG
+    itx = ('txn', (('set', 'a', IBIG), ('set', 'b', 2)))
+    iinit = [('set', 'b', 1), ('set', 'a', ('$T', 13))]
+    units.append(('index-sched', [[('get', 'a')], [itx]], iinit, None, cap))
+    units.append(('index-sched', [[('get', 'b'), ('get', 'a')], [itx]], iinit,
+                  2 if tier == 'quick' else None, cap))
     units = run.shuffled(units, seed)
     for part in run.pmap(work, units):
         rep.merge(part, part.get('label'))
@@ -469,14 +516,17 @@ def main(tier, seed):
         'bodies': '%d block bodies (length <= %d over %d elements incl. a '
                   'nested block that raises and is caught) x 3 initial states '
                   'x raise after every prefix; a failure injected at every '
-                  'event inside the block for bodies of length <= 2%s'
+                  'event inside the block for bodies of length <= 2%s; the '
+                  'short bodies again after a write of the same client '
+                  'timed out'
                   % (len(allb), 2 if tier == 'quick' else 3, len(ELEMENTS),
                      ' (all lengths in thorough)' if tier == 'thorough'
                      else ''),
         'containers': 'Deque/Index/FanoutCache.transact: raise after every '
                       'prefix of a 5-step body',
         'sched': 'block vs reader / writer / second block, own and shared '
-                 'Cache objects; FanoutCache.transact pairs; all '
+                 'Cache objects; FanoutCache.transact pairs; Index.transact '
+                 'block vs lookups (no miss tolerated); all '
                  'interleavings or <= 3 preemptions',
     }
     rep.assumptions = [
